@@ -297,8 +297,8 @@ static uint32_t encode_operand(uint8_t *buf, OperandType type,
                              "Expected label or i32 operand");
                     return 0;
                 }
-                add_patch(state, label, state->fn_code_size + (uint32_t)(buf - (state->fn_code + state->fn_code_size)),
-                          instr_start);
+                /* The operand lands at the current end of the function's code */
+                add_patch(state, label, state->fn_code_size, instr_start);
                 /* Placeholder - will be patched */
                 memset(buf, 0, 4);
                 return 4;
@@ -379,19 +379,9 @@ static bool assemble_instruction(AsmState *state, const char *mnemonic,
     /* Emit operands */
     for (int i = 0; i < info->operand_count; i++) {
         uint8_t operand_buf[8];
-        /* For I32 label patches, we need the offset into fn_code where the operand will land */
-        uint32_t patch_offset = state->fn_code_size;
         uint32_t nbytes = encode_operand(operand_buf, info->operands[i],
                                           rest, state, instr_start, result);
         if (result->error != ASM_OK) return false;
-
-        /* Fix up patch offset: if a patch was added, update its code_offset */
-        if (info->operands[i] == OPERAND_I32 && state->patch_count > 0) {
-            Patch *last = &state->patches[state->patch_count - 1];
-            if (last->code_offset != patch_offset) {
-                last->code_offset = patch_offset;
-            }
-        }
 
         fn_emit(state, operand_buf, nbytes);
     }
